@@ -28,7 +28,8 @@ def check_phase(N, ext, kinds, rises, decays):
     from bycycle.cyclepoints import extrema_interpolated_phase
     peaks = np.array([p for p, k in zip(ext, kinds) if k == 'P'], dtype=int)
     troughs = np.array([p for p, k in zip(ext, kinds) if k == 'T'], dtype=int)
-    sig = np.zeros(N)
+    # the signal is used for its length only: its dtype must not matter
+    sig = np.zeros(N, dtype=(np.float64, np.float32, np.int16)[(N + len(ext) + int(ext[0])) % 3])
     try:
         pha = extrema_interpolated_phase(sig, peaks, troughs,
                                          None if rises is None else np.array(rises, dtype=int),
